@@ -185,13 +185,21 @@ def _run(cmd, inp=None):
     return p.returncode, p.stdout, p.stderr
 
 
-def compile_tu(src, mode, tier, extra, workdir):
-    flags = list(BASE_FLAGS) + INL + ["-O2"] + list(extra)
+# source-level variants, tried only on what is still residual after the IR pipelines: the verdict of a dead-branch proof
+# must not depend on one particular inlining order (each variant is a sound compilation of the same TU)
+SRC_VARIANTS = [
+    ("clang-O3-inl100k", ["-mllvm", "-inline-threshold=100000", "-O3"]),
+    ("clang-O2-inl3k", ["-mllvm", "-inline-threshold=3000", "-O2"]),
+]
+
+
+def compile_tu(src, mode, tier, extra, workdir, opt=None, tag=""):
+    flags = list(BASE_FLAGS) + (list(opt) if opt else INL + ["-O2"]) + list(extra)
     if mode == "declare":
         flags.append("-DVERIF_DECLARE")
     if tier == "thorough":
         flags.append("-DVERIF_THOROUGH")
-    out = os.path.join(workdir, os.path.basename(src) + "." + mode + ".ll")
+    out = os.path.join(workdir, os.path.basename(src) + "." + mode + tag + ".ll")
     cmd = [CLANG] + flags + [src, "-o", out]
     rc, so, se = _run(cmd)
     return rc, out, se, " ".join(cmd)
@@ -250,6 +258,18 @@ def analyse_tu(src, tier="quick", extra=(), keep_ir=False):
                         m2 = {(c["func"], c["id"], c["ints"]): c for c in r2}
                         new = [m2[(c["func"], c["id"], c["ints"])] for c in new]
                     resid = new
+                if not resid:
+                    break
+        if resid:
+            for vname, vopt in SRC_VARIANTS:
+                rc, vll, se, _ = compile_tu(src, "prove", tier, extra, workdir, opt=vopt, tag="." + vname)
+                if rc != 0:
+                    continue
+                used.append(vname)
+                t2 = open(vll).read()
+                c2, md2 = parse_ir(t2)
+                keys2 = set((c["func"], c["id"], c["ints"]) for c in residual_of(c2))
+                resid = [c for c in resid if (c["func"], c["id"], c["ints"]) in keys2]
                 if not resid:
                     break
         res["pipelines_used"] = used
